@@ -4,7 +4,7 @@
    what, operation by operation, and the guarded casts of the code. *)
 From Coq Require Import List String NArith ZArith Bool.
 From AM Require Import Rust.Ast Gen.Entry Ref.Load Ref.Sys Proofs.SysGrows Proofs.SysStatic Proofs.SysMap
-  Proofs.SysReload Tie.Erasure Tie.Entry Rust.Script.
+  Proofs.SysReload Tie.Erasure Tie.Entry Tie.Maps Rust.Script.
 Import ListNotations.
 
 Theorem C13_casts_are_guarded_by_the_type_id :
@@ -20,6 +20,16 @@ Theorem C13_insertion_loser_dropped_at_once : forall s k e old,
   cache_get s k = Some old ->
   snd (cache_insert s k e) = drop_of_tok (en_tok e) /\ fst (fst (cache_insert s k e)) = s.
 Proof. exact insertion_loser_dropped_at_once. Qed.
+
+(* the printed insert of both maps keeps the entry that is there (`entry(key).or_insert(new)` under
+   the write lock / mutable borrow) and hands out the kept one: the loser is the argument, which
+   or_insert drops, never the value handles already point to *)
+Theorem C13_code_insert_keeps_the_first :
+  or_insert_wf Gen.CacheMap.AssetMap_insert "write" = true /\
+  or_insert_wf Gen.LocalMap.AssetMap_insert "borrow_mut" = true.
+Proof.
+  destruct maps_as_modelled as (_ & _ & H1 & _ & _ & _ & _ & _ & _ & _ & H2 & _). exact (conj H1 H2).
+Qed.
 
 Theorem C13_remove_drops_exactly_the_removed : forall fuel s t id e,
   cache_get s (t, id) = Some e -> snd (step fuel s (ORemove t id)) = drop_of e.
